@@ -1,6 +1,6 @@
 """C16 — Recovered runs produce the same outputs as failure-free runs."""
 from harness.lib.framework import Prop, coq_bool, coq_list, coq_nat, coq_opt, coq_str, coq_Z
-from harness.props._recov_shapes import dag_out, denote, step_names
+from harness.props._recov_shapes import dag_out, denote, predict_demand, step_names
 
 PHASES = ["schedule", "transfer", "execute"]
 
@@ -242,19 +242,32 @@ class C16(Prop):
         return bool(c["faults"])
 
     def signature(self, c, o, clause):
-        kinds = "failstop" if any(f[3] in ("failstop", "partial") for f in c["faults"]) else ("soft" if c["faults"] else "none")
-        part = sorted({f[2] for f in c["faults"] if f[3] == "partial"})
-        if part and clause == "outputs-differ":
-            kinds = "partial@" + "+".join(part)   # (for the exhaust-limit clauses a partial loss is a loss like any other)
+        """clause / shape (for loops: which side of the loop loses data) / loss class / budget.
+        loss class: none | soft | failstop (everything below the working directory) | partial (secondary files only);
+        for outputs-differ the phases of the partial faults and, in scatters, whether a job fails in two phases are part of it.
+        budget: `over` iff the fault plan itself demands, under the canonical rollback, more executions of some job than the
+        limit allows (1 + demand > limit: the hypothesis of C16_completes_partial fails -- a refusal is then the boundary
+        of finding 1); `within` iff the plan respects the budget, so a run that still does not complete is NOT explained
+        by the budget."""
+        kinds = {f[3] for f in c["faults"]}
+        loss = "failstop" if "failstop" in kinds else "partial" if "partial" in kinds else "soft" if kinds else "none"
+        if "failstop" in kinds and "partial" in kinds:
+            loss = "failstop+partial"
         jobs = [(f[0], f[1]) for f in c["faults"]]
-        if clause == "outputs-differ" and c["shape"]["kind"] == "scatter" and len(set(jobs)) < len(jobs):
-            kinds += "+multiphase"   # some job fails in two different phases
+        if clause == "outputs-differ":
+            part = sorted({f[2] for f in c["faults"] if f[3] == "partial"})
+            if part:
+                loss += "@" + "+".join(part)
+            if c["shape"]["kind"] == "scatter" and len(set(jobs)) < len(jobs):
+                loss += "+multiphase"   # some job fails in two different phases
         shape = c["shape"]["kind"]
-        if shape == "loop":   # which side of the loop the fail-stop failures hit
+        if shape == "loop":   # which side of the loop the data-losing failures hit
             reg = sorted({"pre" if f[0].startswith("/a") else "post" if f[0].startswith("/c") else "body"
-                          for f in c["faults"] if f[3] == "failstop"})
+                          for f in c["faults"] if f[3] in ("failstop", "partial")})
             shape += "-" + "+".join(reg) if reg else ""
-        return f"{clause}/{shape}/{kinds}/{'tight' if c['slack'] <= 2 else 'slack'}"
+        demand = predict_demand(c)
+        budget = "over" if any(1 + v > c["limit"] for v in demand.values()) else "within"
+        return f"{clause}/{shape}/{loss}/{budget}"
 
     def shrink(self, c):
         fs = c["faults"]
